@@ -27,10 +27,13 @@
    parsed (`TNt`), `json!(ts)` as [EJson ts] and
    `$crate::object::Entry::new(json!(@key (k)), json!(v))` as [EEntry k v].
 
-   External dependency: the spelling of a float.  `Value::try_from(f64)` goes through
-   json-number / lexical-core; [fmt_f64 s] is the spelling produced for the f64 that the
-   Rust literal [s] denotes (None: not finite / not a literal).  It is a section variable;
-   the executable reference used by the correspondence run is Model/MacroFloat.v. *)
+   External dependency: the spelling of a float.  A float literal passes through its float
+   type: `Value::try_from(f64 / f32)` goes through json-number / lexical-core;
+   [fmt_float t s] is the spelling produced for the value of type t (f64, f32) that the Rust
+   literal spelt s denotes (None: the literal does not compile, e.g. it overflows the type --
+   overflowing_literals is deny-by-default).  The spelling of the negated literal is that
+   spelling behind a `-` (also for zero: -0.0 is spelt -0).  [fmt_float] is a section
+   variable; the executable reference used by the correspondence run is Model/MacroFloat.v. *)
 From JsonSyntax Require Import Base.Prelude Base.Value.
 
 Inductive punct := PAt | PComma | PColon | PMinus.
@@ -40,7 +43,16 @@ Inductive delim := Paren | Bracket | Brace.
    a literal with any other suffix (usize, isize, i128, u128) does not compile here *)
 Inductive ity := TI8 | TI16 | TI32 | TI64 | TU8 | TU16 | TU32 | TU64.
 (* an integer literal: its value and its optional type suffix (`255u8`, `7`) *)
-Inductive lit := LInt (n : N) (sfx : option ity) | LFloat (s : list N) | LStr (s : list N) | LBool (b : bool).
+(* the float types: a float literal is an f64 unless it carries the suffix f32 *)
+Inductive fty := FT32 | FT64.
+(* a float literal: its decimal spelling as written (`1.50`, `1e5`, `0.0`, `123456792`) and its
+   optional suffix (`f32`, `f64`; digits without fraction or exponent are a float literal only
+   with a suffix) *)
+Inductive lit :=
+| LInt (n : N) (sfx : option ity)
+| LFloat (s : list N) (sfx : option fty)
+| LStr (s : list N)
+| LBool (b : bool).
 
 Inductive tt : Type :=
 | TIdent (i : ident)
@@ -528,7 +540,7 @@ Fixpoint map_opt {A B} (f : A -> option B) (l : list A) : option (list B) :=
 Inductive rv := RVal (v : value) | RVec (l : list value) | RObj (l : list (key * value)) | RKey (k : key).
 
 Section Run.
-  Variable fmt_f64 : list N -> option (list N).
+  Variable fmt_float : fty -> list N -> option (list N).
   Variable env : list N -> option (list N).       (* variables of type &str in scope *)
 
   (* Value::try_from / Value::from of a (negated) literal *)
@@ -539,8 +551,8 @@ Section Run.
         let z := if neg then (- Z.of_N n)%Z else Z.of_N n in
         if neg && negb (ity_signed t) then None
         else if in_ity t z then Some (VNum (dec_of_Z z)) else None
-    | LFloat s =>
-        match fmt_f64 s with
+    | LFloat s sfx =>
+        match fmt_float (match sfx with Some t => t | None => FT64 end) s with
         | Some r => Some (VNum (if neg then 0x2D :: r else r))
         | None => None
         end
@@ -558,8 +570,8 @@ Section Run.
   (* Value::from(e): there is no From<f64> *)
   Fixpoint from_expr (e : expr) : option value :=
     match e with
-    | ELit (LFloat _) => None
-    | ENeg (LFloat _) => None
+    | ELit (LFloat _ _) => None
+    | ENeg (LFloat _ _) => None
     | ELit l => conv_lit false l
     | ENeg l => conv_lit true l
     | EParen e' => from_expr e'
